@@ -28,6 +28,28 @@ def key_chooser(ctx: Ctx) -> None:
     name, alias = ip.param_names()[:2]
     from .tables import function_decs, judge, sums_of
     accs = {"get": ip.nested.get("item_property"), "set": ip.nested.get("item_property@setter"), "del": ip.nested.get("item_property@deleter")}
+    call_form = False
+    if any(f is None for f in accs.values()):
+        # the other spelling of the same object: return property(fget, fset, fdel) over nested functions / lambdas
+        rr0 = [r for r in body_walk(ip.node) if isinstance(r, ast.Return)]
+        if len(rr0) == 1 and isinstance(rr0[0].value, ast.Call) and isinstance(rr0[0].value.func, ast.Name) and rr0[0].value.func.id == "property" \
+                and len(rr0[0].value.args) + len(rr0[0].value.keywords) == 3:
+            c = rr0[0].value
+            parts = dict(zip(("get", "set", "del"), c.args))
+            for kw in c.keywords:
+                if kw.arg in ("fget", "fset", "fdel"):
+                    parts[{"fget": "get", "fset": "set", "fdel": "del"}[kw.arg]] = kw.value
+            from ..engine import FunctionInfo as _FI
+            for k in ("get", "set", "del"):
+                e = parts.get(k)
+                if isinstance(e, ast.Name) and e.id in ip.nested:
+                    accs[k] = ip.nested[e.id]
+                elif isinstance(e, ast.Lambda):
+                    fd = ast.FunctionDef(name=f"_{k}", args=e.args, body=[ast.Return(value=e.body)], decorator_list=[], returns=None, type_comment=None, type_params=[])
+                    ast.copy_location(fd, e)
+                    ast.fix_missing_locations(fd)
+                    accs[k] = _FI(module=ip.module, qualname=f"{ip.qualname}.<{k}>", node=fd, cls=None, parent=ip)
+            call_form = all(f is not None for f in accs.values())
     for k, f in accs.items():
         require(f is not None, f"item_property accessor '{k}' not found")
 
@@ -55,6 +77,10 @@ def key_chooser(ctx: Ctx) -> None:
         judge(ctx, "R-TABLE" if k == "get" else "R-CLONE", f, title, decs, [A, B, C], spec, equiv={f"{alias} is None": (B, False)},
               why="all three accessors must agree on the key: 'name' unless it is absent and the alias is present")
     rr = [r for r in body_walk(ip.node) if isinstance(r, ast.Return)]
+    if call_form:
+        ctx.ok("R-CLONE", ip, "item_property returns the property object with all three accessors", "property(fget, fset, fdel)", node=ip.node)
+        ctx.ok("R-CLONE", ip, "accessors are property / .setter / .deleter of one property", "property(fget, fset, fdel)", node=ip.node)
+        return
     ctx.expect("R-CLONE", ip, "item_property returns the property object with all three accessors", len(rr) == 1 and ast.unparse(rr[0].value) == "item_property", "", "", node=ip.node)
     decos = {k: f.decorators() for k, f in accs.items()}
     ctx.expect("R-CLONE", ip, "accessors are property / .setter / .deleter of one property", decos == {"get": ["property"], "set": ["item_property.setter"], "del": ["item_property.deleter"]}, str(decos), str(decos), node=ip.node)
